@@ -74,7 +74,7 @@ class World:
                        "fault_unwinds_2_levels", "first_touch_at_depth_2", "apply_inside_context",
                        "dimension_mismatch_refused", "post_fault_ops_executed", "reenter_after_exit",
                        "object_is_context_operator_twice", "poke_inside_context", "secularize_inside_context",
-                       "deepcopy_inside_context", "convert_inside_context", "eso_at_inside_context"]
+                       "deepcopy_inside_context", "convert_inside_context", "eso_at_inside_context", "context_operator_not_looked_at"]
     required_faults = ["F1_simfault", "F2_refused_write", "F3_dimension_mismatch"]
     components = {
         "real": ["Manager basis stack / registration / flags", "eigenbasis_of.__enter__/__exit__", "BasisManaged",
@@ -135,7 +135,7 @@ class World:
             if k == "create":
                 ops.append(self._gen_create(rng, classes))
             elif k == "enter":
-                ops.append({"op": "enter", "k": rng.randrange(16)})
+                ops.append({"op": "enter", "k": rng.randrange(16), "look": rng.random() < 0.6})
             elif k == "exit":
                 ops.append({"op": "exit"})
             elif k == "fault":
@@ -438,8 +438,17 @@ class Runner:
         raise HarnessError("unknown class " + cls)
 
     # ---------------------------------------------------------------- pool helpers
+    def blocked(self, o):
+        """Outside the known-findings zone, objects of classes with real-typed storage are left alone while a context
+        whose transformation matrix came out complex is active (LAPACK may return complex eigenvectors for an operator
+        whose array is complex-typed although its values are real): that is the territory of the known finding
+        C04-operator-form-complex-basis and must not leak into the clean zones."""
+        if o.cls in COMPLEX_OK or (self.kf and self.cplx):
+            return False
+        return any(l.get("complexS") for l in self.levels)
+
     def pick(self, k, pred=lambda o: True):
-        cand = [n for n, o in enumerate(self.pool) if o.alive and pred(o)]
+        cand = [n for n, o in enumerate(self.pool) if o.alive and not self.blocked(o) and pred(o)]
         if not cand:
             return None
         return cand[k % len(cand)]
@@ -636,7 +645,10 @@ class Runner:
             self.ctx.probe("diagonal_context")
         Tp, Tpi = self.TTi(self.depth, o.dim) if all(l["dim"] == o.dim for l in self.levels) else (numpy.eye(o.dim), numpy.eye(o.dim))
         T = Tp @ S
-        self.levels.append({"S": S, "T": T, "Ti": numpy.linalg.inv(T), "dim": o.dim, "opk": k, "pre": pre})
+        self.levels.append({"S": S, "T": T, "Ti": numpy.linalg.inv(T), "dim": o.dim, "opk": k, "pre": pre,
+                            "complexS": bool(numpy.max(numpy.abs(S.imag)) > 1e-14)})
+        if self.levels[-1]["complexS"] and not self.cplx:
+            self.ctx.probe("complex_eigenvectors_of_real_valued_operator")
         self.entered += 1
         if self.depth >= 3:
             self.ctx.probe("nested_depth_3")
@@ -646,7 +658,12 @@ class Runner:
         self.ctx.cov("enter", o.cls, self.depth, dd.size and bool(numpy.min(numpy.abs(dd)) < 1e-9))
         self.check_bookkeeping({}, "inside the context entered at op %d" % i)
         self.check_current_operator("inside the context entered at op %d" % i)
-        # the context operator itself must be presented diagonal
+        # the context operator itself must be presented diagonal (looking at it is an access like any other,
+        # so it is a seeded part of the program: untouched context operators keep their array across the context)
+        if not self.program["ops"][i].get("look", True):
+            self.ctx.probe("context_operator_not_looked_at")
+            self.peek_all("after entering the context at op %d" % i)
+            return
         try:
             Hd = numpy.array(o.real.data)
         except Exception as e:
